@@ -89,6 +89,21 @@ CHECKS = {
          "every recorded event is validated by TLC: lifetime = interval capped by the configured maximum; no delivery after the deadline (reading tolerance 400 ms); an expired copy of an online session is dropped and reported (OnMsgDropped event); "
          "the forwarded interval of a v5 subscriber is original - whole seconds waited (+-1 s), within [1, original], never absent.",
     note="Real seconds; decisive instants >= 450 ms from deadlines; logging latency assumed < 400 ms. Retained replay excluded (fresh lifetime by design). States/transitions reported are those of the trace specification visited while explaining the traces."),
+ "C05": dict(
+    level="model_checking", ref="DESIGN.md §4 C05, App. B.3",
+    technique="timed trace validation by TLC against Broker.tla session rules, with the broker's register/unregister/closed hook events as linearization points; storms of simultaneous CONNECTs",
+    text="Seeded scenarios: lifecycle matrix (v3.1/v3.1.1/v5 x Clean Start x expiry x connection duration shorter/longer than the expiry x DISCONNECT / DISCONNECT with new expiry / abort / TerminateSession x reconnect before/after the expiry), "
+         "sequential take-overs, and storms of 2-6 simultaneous CONNECTs on one client id with and without a stored offline session. TLC validates Session Present against ResumeVerdicts (expiry measured from the end of the last connection, "
+         "either verdict inside a 450 ms window), that the session state is intact by content (subscription routes, message queued while offline is delivered) or empty, and on the broker's own event order: at most one registered connection per "
+         "client id, a broker-ended connection has finished its teardown before the next one is registered, nothing delivered on a displaced connection.",
+    note="Real seconds (20 s sweeper not waited for); interleavings of simultaneous CONNECTs are those the Go scheduler produces in the storms (the re-lock window defect was found this way and fixed), not an exhaustive enumeration."),
+ "C08": dict(
+    level="model_checking", ref="DESIGN.md §4 C08",
+    technique="timed trace validation by TLC against Broker.tla will rules (WillAtEnd / WillAtResume / WillAtSessionEnd / WillFire), with the broker's will-publication hook event and an independent watcher",
+    text="Seeded timed scenarios: will {QoS, retain, delay 0/1/2 s, v3.1.1/v5} x ending {DISCONNECT 0x00, DISCONNECT 0x04, socket close, malformed packet, keep-alive timeout, take-over with Clean Start 0/1, TerminateSession} x session expiry {0,1,5 s} "
+         "x reconnect {none, before, after the delay}. TLC validates that the will is published exactly once (publication event + delivery to a watcher with the QoS / RETAIN its subscription yields), not before min(delay, expiry) after the end "
+         "of the connection, within 500 ms after it, immediately when the session ends, never after DISCONNECT 0x00 and never after a resume before the delay.",
+    note="Real seconds; tolerance windows 200 ms early / 500 ms late / 450 ms around resume decisions. Will properties other than QoS/retain/delay and storing a retained will are not examined."),
 }
 
 NOT_YET = {
